@@ -21,12 +21,67 @@ WORKLOADS = [
 QUICK = {"cold_call", "source_change", "expired_entry", "call_and_shelve", "reduce_size", "clear_func", "compressed"}
 
 
+# workloads that have a counterpart in CacheFS.tla: (model configuration, argument -> model key)
+MODEL_OF = {
+    "cold_call": (dict(ops="C", vers="1", keys="A", crash=1, sequential=True), {3: "a", 5: "b"}),
+    "second_arg": (dict(ops="C", vers="1", keys="B", crash=1, sequential=True, warm=("a",)), {3: "a", 4: "b"}),
+    "source_change": (dict(ops="C", vers="2", keys="A", crash=1, sequential=True, warm=("a", "b")), {3: "a", 4: "b"}),
+    "clear_func": (dict(ops="L", vers="1", keys="A", crash=1, sequential=True, warm=("a", "b")), {1: "a", 2: "b"}),
+    "reduce_size": None,        # evicts by access time: which entries go is not in the model (it evicts all)
+}
+
+
+def snapshot(root, keymap, code_texts):
+    """classify the function directory of a (crashed) cache in the vocabulary of CacheFS.tla"""
+    import joblib, glob
+    fdir = os.path.join(root, "joblib", "cachedmod", "f")
+    ex = []; ct = []
+    if not os.path.isdir(fdir): return cachefs_model.canon([], [])
+    ex.append(["F"])
+    cp = os.path.join(fdir, "func_code.py")
+    if os.path.exists(cp):
+        txt = open(cp, "rb").read(); ex.append(["F", "code"])
+        v = [k for k, t in code_texts.items() if t == txt]
+        ct.append([["F", "code"], ["code", v[0]] if v else ["empty"] if not txt else ["partial"]])
+    for name in os.listdir(fdir):
+        d = os.path.join(fdir, name)
+        if not os.path.isdir(d): continue
+        key = None
+        for fn in os.listdir(d):
+            fp = os.path.join(d, fn)
+            if fn.startswith("output.pkl"):
+                try:
+                    val = joblib.load(fp); cls = ["val", int(val[0][1:]), keymap[val[1]]]; key = keymap[val[1]]
+                except Exception:
+                    cls = ["partial"]
+                ct.append([fn, cls])
+            elif fn.startswith("metadata.json"):
+                try:
+                    m = json.load(open(fp)); cls = ["meta"]; key = key or keymap.get(eval(m["input_args"]["x"]))
+                except Exception:
+                    cls = ["partial"]
+                ct.append([fn, cls])
+        if key is None:
+            key = {joblib.hash({"x": a, "y": 0}): kk for a, kk in keymap.items()}.get(name, "?" + name[:4])
+        ex.append(["F", key])
+        fixed = []
+        for fn, cls in [c2 for c2 in ct if isinstance(c2[0], str)]:
+            kind = "out" if fn == "output.pkl" else "metaf" if fn == "metadata.json" else "tmpo" if fn.startswith("output.pkl") else "tmpm"
+            pth = ["F", key, kind] + ([1] if kind.startswith("tmp") else [])
+            ex.append(pth); fixed.append([pth, cls])
+        ct = [c2 for c2 in ct if not isinstance(c2[0], str)] + fixed
+    return cachefs_model.canon(ex, ct)
+
+
 def torn_lengths(n, path, quick):
     small = path.endswith("func_code.py") or "metadata.json" in path
     if small and not quick:
         return list(range(1, n))
     cand = {1, 13, 14, 15, n // 2, n - 1}
     return sorted(k for k in cand if 0 < k < n)
+
+
+CODE_TEXTS = {}
 
 
 def spec_of(base, ver, opts, ops):
@@ -69,6 +124,9 @@ def one_case(args):
     if k is None:
         shutil.rmtree(cdir, ignore_errors=True)
         return rec
+    if MODEL_OF.get(name):
+        try: rec["snapshot"] = snapshot(root, MODEL_OF[name][1], CODE_TEXTS)
+        except Exception as e: rec["snapshot_error"] = repr(e)[:200]
     # recovery: fresh interpreters, no interposer, each reader kind on its own copy of the crashed directory
     readers = [("plain", {}, [["loadall"]] + [["call", a] for a in probes]),
                ("plain_rev", {}, [["call", a] for a in reversed(probes)]),
@@ -119,8 +177,29 @@ def body(c):
                 for ln in torn_lengths(n, t[1], c.quick):
                     cases.append((base, wl, cid, k, ln)); cid += 1
         c.extra.setdefault("mutating_calls", {})[wl[0]] = len(mut)
+    # reference texts of func_code.py for both versions (complete files)
+    refb = common.scratch("c05_ref")
+    for v in (1, 2):
+        rd = os.path.join(refb, "v%d" % v); os.makedirs(rd)
+        fsctl.run_plain(rd, spec_of(refb, v, {}, [["call", 3]]))
+        CODE_TEXTS[v] = open(os.path.join(rd, "joblib", "cachedmod", "f", "func_code.py"), "rb").read()
+    shutil.rmtree(refb, ignore_errors=True)
+    model_states = {w: cachefs_model.crash_states(c, w, **MODEL_OF[w][0]) for w in [x[0] for x in wls] if MODEL_OF.get(w)}
     with ThreadPoolExecutor(max_workers=14) as ex:
         results = list(ex.map(one_case, cases))
+    nconf = 0; ndrift = 0
+    for r in results:
+        if "snapshot" in r:
+            nconf += 1
+            if r["snapshot"] not in model_states[r["workload"]]:
+                ndrift += 1
+                if ndrift <= 5:
+                    print("DRIFT property=C05 crash state of the real directory is not a crash state of CacheFS: workload=%s crash_before=%s torn=%s snapshot=%s" %
+                          (r["workload"], r["crash_before"], r["torn"], r["snapshot"][:400]))
+        elif "snapshot_error" in r:
+            ndrift += 1
+    c.extra["crash_states_compared_with_model"] = nconf; c.extra["crash_states_not_in_model"] = ndrift
+    c.drift += ndrift; c.traces_validated = nconf - ndrift
     for b in bases:
         shutil.rmtree(b, ignore_errors=True)
     kinds = collections.Counter()
